@@ -294,3 +294,14 @@ package tracker
 //@        && (result.Voters[1] != result.LearnersNext || result.LearnersNext == nil) && (result.Learners != result.LearnersNext || result.Learners == nil)
 //@   ensures #auto-leave-dropped !result.AutoLeave
 //@   ensures #input-untouched [C13] allocframe("M$map[uint64]struct{}")
+
+//@ -- ------------------------------------------------------------------------------------------
+//@ -- ConfState: a fresh record listing each of the four id sets once, ascending, and the AutoLeave flag
+//@ func tracker.ProgressTracker.ConfState [C13 C19]
+//@   requires p != nil
+//@   ensures #fresh result != nil && fresh(result)
+//@   ensures #voters [C13 C19] ids_of(result.Voters, p.Voters[0])
+//@   ensures #outgoing [C13 C19] ids_of(result.VotersOutgoing, p.Voters[1])
+//@   ensures #learners [C13 C19] ids_of(result.Learners, p.Learners)
+//@   ensures #learners-next [C13 C19] ids_of(result.LearnersNext, p.LearnersNext)
+//@   ensures #auto-leave [C13] result.AutoLeave != nil && deref(result.AutoLeave) == p.AutoLeave
